@@ -163,20 +163,23 @@ def run(R, replay=None):
         "    if got is None or set(got) != {i}: bad.append(['nosec', n, None if got is None else sorted(got), i])\n"
         "import shutil; shutil.rmtree(d, ignore_errors=True)\n"
         "print(json.dumps({'rows': len(rows), 'bad': bad[:10]}))\n")
-    pr_ = _sp.run([_sys.executable, "-c", script_], capture_output=True, text=True, timeout=300,
-                  env=dict(os.environ, PYTHONPATH=core.REPO, PYTHONHASHSEED="0"))
-    R.case(("report-then-lookup",), nontrivial=True, sample={"exit": pr_.returncode})
-    R.count("report-then-lookup")
-    try:
-        res_ = json.loads(pr_.stdout.strip().splitlines()[-1])
-    except Exception:  # noqa: BLE001
-        res_ = None
-    if res_ is None or res_["rows"] < 60:
-        R.violations.append({"what": "a process that writes a report and then resolves every registered name does not complete", "input": "report, then lookups",
-                             "observed": (pr_.stderr or pr_.stdout)[-400:], "signature": None})
-    elif res_["bad"]:
-        R.violations.append({"what": "after a report was written, the name %s resolves to %s instead of %s (%s)" % (res_["bad"][0][1], res_["bad"][0][2], res_["bad"][0][3], res_["bad"][0][0]),
-                             "input": "fresh process: scan, write json+html reports, then resolve every registered name", "observed": res_["bad"], "signature": None})
+    # the same in an interpreter that strips assert statements (python -O): the registry is built by ordinary statements
+    for flags_ in ([], ["-O"], ["-OO"]):
+        pr_ = _sp.run([_sys.executable] + flags_ + ["-c", script_], capture_output=True, text=True, timeout=300,
+                      env=dict(os.environ, PYTHONPATH=core.REPO, PYTHONHASHSEED="0"))
+        R.case(("report-then-lookup", tuple(flags_)), nontrivial=True, sample={"interpreter_flags": flags_, "exit": pr_.returncode})
+        R.count("report-then-lookup")
+        try:
+            res_ = json.loads(pr_.stdout.strip().splitlines()[-1])
+        except Exception:  # noqa: BLE001
+            res_ = None
+        how_ = "fresh process (python %s): scan, write json+html reports, then resolve every registered name" % " ".join(flags_)
+        if res_ is None or res_["rows"] < 60:
+            R.violations.append({"what": "a process (python %s) that writes a report and then resolves every registered name does not complete or has a registry of %s names" % (
+                " ".join(flags_), None if res_ is None else res_["rows"]), "input": how_, "observed": (pr_.stderr or pr_.stdout)[-400:], "signature": None})
+        elif res_["bad"]:
+            R.violations.append({"what": "after a report was written (python %s), the name %s resolves to %s instead of %s (%s)" % (
+                " ".join(flags_), res_["bad"][0][1], res_["bad"][0][2], res_["bad"][0][3], res_["bad"][0][0]), "input": how_, "observed": res_["bad"], "signature": None})
     # ---- name lookups do not depend on what the parser has seen before (free text after a nosec, other capitalisations)
     for noise in ("# nosec B311 Random numbers only for jitter", "# nosec b311 Pickle Eval MD5 Assert_Used", "# nosec IMPORT_TELNETLIB EXEC_USED"):
         bman._parse_nosec_comment(noise)
